@@ -139,27 +139,31 @@ def _one(c, r):
     r.branch("grid:" + c["grid"])
     r.branch("exact" if exact else "raw")
 
-    def rel(name, got, want):
+    def rel(name, got, want, terms=None):
+        # `terms`: the addends of a reduction; a sum of mixed-sign terms is only defined up to round-off of the
+        # largest term, so that sets the absolute floor (a mean of +-1e-9 values legitimately differs at 1e-25)
         r.count("relations_judged")
         sig = (name, c["grid"], deg)
-        r.check_close(name, np.asarray(got), np.asarray(want), 1e-9, witness={**wit, "relation": name}, sig=sig)
+        atol = 0.0 if terms is None else 1e-12 * float(np.abs(np.asarray(terms)).max() if np.asarray(terms).size else 0.0)
+        r.check_close(name, np.asarray(got), np.asarray(want), 1e-9, witness={**wit, "relation": name}, sig=sig, atol=atol)
 
     V = vol(lo, hi)
-    rel("field_reduced_is_volume_weighted_mean", D["f_red/fields"], (D["f_sp/fields"] * V[None, None]).sum(axis=(2, 3, 4)) / V.sum())
-    rel("phasor_reduced_is_volume_weighted_mean", D["p_red/phasor"], (D["p_sp/phasor"] * V[None, None, None]).sum(axis=(3, 4, 5)) / V.sum())
-    rel("energy_reduced_is_volume_sum", D["e_red/energy"][:, 0], (D["e_sp/energy"] * V[None]).sum(axis=(1, 2, 3)))
+    rel("field_reduced_is_volume_weighted_mean", D["f_red/fields"], (D["f_sp/fields"] * V[None, None]).sum(axis=(2, 3, 4)) / V.sum(), terms=D["f_sp/fields"])
+    rel("phasor_reduced_is_volume_weighted_mean", D["p_red/phasor"], (D["p_sp/phasor"] * V[None, None, None]).sum(axis=(3, 4, 5)) / V.sum(), terms=D["p_sp/phasor"])
+    rel("energy_reduced_is_volume_sum", D["e_red/energy"][:, 0], (D["e_sp/energy"] * V[None]).sum(axis=(1, 2, 3)), terms=D["e_sp/energy"] * V[None])
     A = area(plo, phi, pa)
     sp_all = D["pl+01/poynting_flux"]  # (T,3,*plane)
     sp_sc = D["pl+00/poynting_flux"]  # (T,*plane)
     rel("scalar_is_propagation_component", sp_sc, sp_all[:, pa])
-    rel("reduced_scalar_is_area_sum", D["pl+10/poynting_flux"][:, 0], (sp_sc * A[None]).sum(axis=(1, 2, 3)))
+    rel("reduced_scalar_is_area_sum", D["pl+10/poynting_flux"][:, 0], (sp_sc * A[None]).sum(axis=(1, 2, 3)), terms=sp_sc * A[None])
     A3 = np.stack([area(plo, phi, a) for a in range(3)])
-    rel("reduced_vector_is_area_sum", D["pl+11/poynting_flux"], (sp_all * A3[None]).sum(axis=(2, 3, 4)))
+    rel("reduced_vector_is_area_sum", D["pl+11/poynting_flux"], (sp_all * A3[None]).sum(axis=(2, 3, 4)), terms=sp_all * A3[None])
     for tag in ("00", "01", "10", "11"):
         rel("minus_direction_negates", D[f"pl-{tag}/poynting_flux"], -D[f"pl+{tag}/poynting_flux"])
     active = [a for a in range(3) if hi[a] - lo[a] > 1]
     net = sum(D[f"face{a}max/poynting_flux"][:, 0] - D[f"face{a}min/poynting_flux"][:, 0] for a in active) if active else np.zeros(T)
-    rel("closed_surface_is_signed_face_sum", D["closed/poynting_flux"][:, 0], net)
+    face_terms = np.stack([D[f"face{a}{sd}/poynting_flux"][:, 0] for a in range(3) for sd in ("min", "max")])
+    rel("closed_surface_is_signed_face_sum", D["closed/poynting_flux"][:, 0], net, terms=face_terms)
     rel("inward_negates_outward", D["closed_in/poynting_flux"][:, 0], -D["closed/poynting_flux"][:, 0])
     # inverse-time phasor detector: for the same (time step, fields, state) its update subtracts exactly what the
     # forward detector's update adds (judged on the real placed detectors with random inputs)
